@@ -171,7 +171,7 @@ def corrupt_sched(case):
 
 def run_cases(ctx, binary, mode, cases, critical, prefix, timeout=None):
     """replay_behaviours for one engine mode; returns the results and aggregates the engines' statistics."""
-    res = ctx.replay_behaviours(binary, cases, args=[mode], critical=critical, wrap=lambda c: c, timeout=timeout or ctx.q(3600, 4 * 3600),
+    res = ctx.replay_behaviours(binary, cases, args=[mode], critical=critical, wrap=lambda c: c, timeout=timeout or ctx.q(1500, 4 * 3600),
                                 fingerprint=lambda c, r: prefix + ":" + ((c["name"] + ":") if c.get("name") else "") + re.sub(r"^(C0[89]):", "", str(r.get("fp"))),
                                 shards=min(vlib.NCPU, max(1, len(cases) // 3)))
     agg = collections.Counter()
